@@ -108,6 +108,11 @@ pub struct Scenario {
     pub n: usize,
     pub init: Vec<Arc3>,
     pub threads: Vec<Vec<Call>>,
+    /// node keys from the lowest to the highest allocation address. Lock
+    /// ordering protocols depend on it, so it is an explored, replayable input
+    /// (empty = whatever the allocator gives).
+    #[serde(default)]
+    pub addr_order: Vec<K>,
 }
 
 impl Scenario {
@@ -119,7 +124,7 @@ impl Scenario {
             .enumerate()
             .map(|(i, t)| format!("T{}: {}", i, t.iter().map(|c| c.show()).collect::<Vec<_>>().join("; ")))
             .collect();
-        format!("{} nodes; init [{}]; {}", self.n, init.join("; "), th.join("  ||  "))
+        format!("{} nodes (address order {:?}); init [{}]; {}", self.n, self.addr_order, init.join("; "), th.join("  ||  "))
     }
     /// Canonical description of the calls (for classes of larger scenarios).
     pub fn canonical_calls(&self) -> String {
@@ -333,7 +338,7 @@ pub fn run_schedule<F: Fl>(sc: &Scenario, prefix: &[usize]) -> Execution
 where
     F::Node: Send + Sync + 'static,
 {
-    let nodes: Vec<F::Node> = (0..sc.n).map(|k| F::node(k as K, Val::new(default_val(k as K)))).collect();
+    let nodes: Vec<F::Node> = alloc_nodes::<F>(sc.n, &sc.addr_order);
     for (u, v, e) in &sc.init {
         F::connect(&nodes[*u as usize], &nodes[*v as usize], *e);
     }
@@ -465,6 +470,56 @@ where
         Err(Fail::Panic("aborted".into()))
     };
     Execution { points, outcome, rets, final_obs, lock_points }
+}
+
+/// Allocate nodes 0..n such that their allocation addresses are ordered as
+/// `order` demands (keys from lowest to highest address). Addresses are
+/// observed through the identity of each node's lock.
+pub fn alloc_nodes<F: Fl>(n: usize, order: &[K]) -> Vec<F::Node> {
+    let fresh = |k: K| F::node(k, Val::new(default_val(k)));
+    if order.is_empty() {
+        return (0..n).map(|k| fresh(k as K)).collect();
+    }
+    let mon = ensure_monitor();
+    let addr = |nd: &F::Node| {
+        let _ = F::deg_out(nd);
+        mon.last_lock.get()
+    };
+    let mut graveyard: Vec<F::Node> = Vec::new();
+    for _attempt in 0..200 {
+        // allocators tend to hand out increasing addresses: allocate in the requested order
+        let mut cand: Vec<Option<F::Node>> = (0..n).map(|_| None).collect();
+        for k in order {
+            cand[*k as usize] = Some(fresh(*k));
+        }
+        let cand: Vec<F::Node> = cand.into_iter().map(|c| c.expect("order names every node")).collect();
+        let mut by_addr: Vec<K> = (0..n as K).collect();
+        by_addr.sort_by_key(|k| addr(&cand[*k as usize]));
+        if by_addr == order {
+            return cand;
+        }
+        graveyard.extend(cand);
+    }
+    panic!("{}: could not obtain address order {:?}", HARNESS_MARK, order);
+}
+
+fn permutations(n: usize) -> Vec<Vec<K>> {
+    fn rec(rest: &mut Vec<K>, cur: &mut Vec<K>, out: &mut Vec<Vec<K>>) {
+        if rest.is_empty() {
+            out.push(cur.clone());
+            return;
+        }
+        for i in 0..rest.len() {
+            let x = rest.remove(i);
+            cur.push(x);
+            rec(rest, cur, out);
+            cur.pop();
+            rest.insert(i, x);
+        }
+    }
+    let mut out = Vec::new();
+    rec(&mut (0..n as K).collect(), &mut Vec::new(), &mut out);
+    out
 }
 
 // ---------------------------------------------------------------------------
@@ -761,10 +816,10 @@ pub fn scenarios(p: &SParams, directed: bool) -> Vec<Scenario> {
                 // unordered pairs with at least one mutator
                 for (i, a) in m0.iter().enumerate() {
                     for b in m1.iter().skip(i) {
-                        out.push(Scenario { n: p.n, init: init.clone(), threads: vec![vec![*a], vec![*b]] });
+                        out.push(Scenario { n: p.n, init: init.clone(), addr_order: vec![], threads: vec![vec![*a], vec![*b]] });
                     }
                     for b in &q {
-                        out.push(Scenario { n: p.n, init: init.clone(), threads: vec![vec![*a], vec![*b]] });
+                        out.push(Scenario { n: p.n, init: init.clone(), addr_order: vec![], threads: vec![vec![*a], vec![*b]] });
                     }
                 }
             }
@@ -777,7 +832,7 @@ pub fn scenarios(p: &SParams, directed: bool) -> Vec<Scenario> {
                                 let ia2 = m0.iter().position(|x| x == a2).unwrap();
                                 let jb2 = m1.iter().position(|x| x == b2).unwrap();
                                 if (i, ia2) <= (j, jb2) {
-                                    out.push(Scenario { n: p.n, init: init.clone(), threads: vec![vec![*a1, *a2], vec![*b1, *b2]] });
+                                    out.push(Scenario { n: p.n, init: init.clone(), addr_order: vec![], threads: vec![vec![*a1, *a2], vec![*b1, *b2]] });
                                 }
                             }
                         }
@@ -788,7 +843,7 @@ pub fn scenarios(p: &SParams, directed: bool) -> Vec<Scenario> {
                 for (i, a) in m0.iter().enumerate() {
                     for (j, b) in m1.iter().enumerate().skip(i) {
                         for c in m2.iter().skip(j) {
-                            out.push(Scenario { n: p.n, init: init.clone(), threads: vec![vec![*a], vec![*b], vec![*c]] });
+                            out.push(Scenario { n: p.n, init: init.clone(), addr_order: vec![], threads: vec![vec![*a], vec![*b], vec![*c]] });
                         }
                     }
                 }
@@ -798,7 +853,7 @@ pub fn scenarios(p: &SParams, directed: bool) -> Vec<Scenario> {
                 for a in &m0 {
                     for b1 in &q {
                         for b2 in &q {
-                            out.push(Scenario { n: p.n, init: init.clone(), threads: vec![vec![*a], vec![*b1, *b2]] });
+                            out.push(Scenario { n: p.n, init: init.clone(), addr_order: vec![], threads: vec![vec![*a], vec![*b1, *b2]] });
                         }
                     }
                 }
@@ -806,7 +861,17 @@ pub fn scenarios(p: &SParams, directed: bool) -> Vec<Scenario> {
             other => panic!("GDSL_MC_HARNESS: unknown scenario shape {}", other),
         }
     }
-    out
+    // every allocation-address order of the nodes
+    let perms = permutations(p.n);
+    let mut all = Vec::with_capacity(out.len() * perms.len());
+    for sc in out {
+        for pm in &perms {
+            let mut s2 = sc.clone();
+            s2.addr_order = pm.clone();
+            all.push(s2);
+        }
+    }
+    all
 }
 
 fn has_open_pair(sc: &Scenario, open: &[String]) -> bool {
